@@ -28,6 +28,9 @@ def conditions(tier):
             cs.append(C(H16, codec, "h_rooms_codec", h, w, t=2 * T, VERIF_LMAX=lmax,
                         key="rooms-codec:%s:%s" % (codec, "1xN" if min(h, w) == 1 else "HxW")))
     cs.append(C(H16, "heyawake", "h_rooms_codec", 2, 3, t=2 * T, VERIF_WIDEVALS=1, key="rooms-codec:heyawake:HxW"))
+    if q:   # rooms of non-convex shape (U, C, S) need a 2x3 board: cheap for the border-only codecs
+        cs.append(C(H16, "lits", "h_rooms_codec", 2, 3, t=2 * T, VERIF_LMAX=1, key="rooms-codec:lits:HxW"))
+        cs.append(C(H16, "norinori", "h_rooms_codec", 3, 2, t=2 * T, VERIF_LMAX=1, key="rooms-codec:norinori:HxW"))
     for (h, w) in ([(2, 2), (1, 3)] if q else [(2, 2), (1, 3), (3, 1), (2, 3), (3, 2)]):
         cs.append(C(H16, "legacy", "h_legacy_segmentation", h, w, t=2 * T, VERIF_LMAX=2 if h * w <= 4 else 1, key="legacy-segmentation"))
     cs.append(C(H16, "legacy", "h_legacy_array", t=2 * T, key="legacy-array"))
